@@ -34,6 +34,8 @@ def patches(only):
         if not os.path.exists(meta):
             continue
         m = json.load(open(meta))
+        if m.get('neutralised_by'):
+            continue      # a later repository fix made the change harmless (its demonstration exits 0): nothing to catch
         # a seeded change is run against the check(s) recorded as catching it (its own property unless it can only
         # manifest through another property's workload, e.g. a cold-start race seeded under C15 -> C19)
         owner = m['property'] if m['property'] in m.get('caught_by', [m['property']]) else m['caught_by'][0]
